@@ -597,6 +597,14 @@ func (m *Monitor) onCallback(f *Fn, ci dig.CallbackInfo) {
 	case "err":
 		if ci.Error == nil {
 			m.violate("C20", "C20.callback-error", "f%d failed with %v but callback Error is nil", f.ID, rec.Err)
+		} else if rec.Err.Raw {
+			// the function returned another container's dig error itself: errors.Is with it as the target
+			// panics inside the comparison (known finding F28)
+			if is, pan := safeIs(ci.Error, rec.errVal()); pan != nil {
+				m.violate("C13", "C13.errors-is-panics", "f%d returned another container's dig error as it is; errors.Is(err, thatError) panics: %v", f.ID, pan)
+			} else if !is {
+				m.violate("C20", "C20.callback-error", "f%d callback Error %v does not carry the function's error", f.ID, ci.Error)
+			}
 		} else if rec.Err.Inner != nil {
 			// the function's error wraps a foreign dig error: RootCause looks through it (known finding of C13);
 			// the callback must still carry the function's own error
@@ -1111,6 +1119,20 @@ func (m *Monitor) afterInvoke(i int, op *Op, f *Fn, rec *OpRec) {
 	case len(st.failed) > 0:
 		m.stats["invoke.with-error"]++
 		e := st.failed[0]
+		if e.Err != nil && e.Err.Raw {
+			// The function returned another container's dig error as it is. The Invoke then fails with a chain
+			// whose root cause is a dig error (of that other container). The returned error must still be in
+			// the chain; looking for it with errors.Is panics inside the comparison (known finding F28).
+			m.stats["invoke.with-raw-dig-error"]++
+			if cl != VDig && cl != VUser {
+				m.violate("C07,C04,C13", "C07.failure-hidden", "f%d returned an error but the Invoke verdict is %s (%v)", e.Fn, cl, rec.Err)
+			} else if is, pan := safeIs(rec.Err, e.errVal()); pan != nil {
+				m.violate("C13", "C13.errors-is-panics", "f%d returned another container's dig error as it is; errors.Is(err, thatError) panics: %v", e.Fn, pan)
+			} else if !is {
+				m.violate("C13,C07", "C13.rootcause", "errors.Is does not find the returned error in %v", rec.Err)
+			}
+			break
+		}
 		if cl == VCycle && e.Err != nil && e.Err.Cycle && errors.Is(rec.Err, e.Err) {
 			// known finding F25 (same mechanism as F16): IsCycleDetected looks through the user's error and
 			// finds the cycle rejection of ANOTHER container that it wraps
